@@ -16,7 +16,7 @@ RULE = ("case = (structured script, config). (a) every operator skeleton over `>
         "reference rendering; format on → equality after deleting all white space (generated names/values/texts contain none); the tree "
         "returned by emmet.markup_abbreviation() must have the same shape and names. "
         "Non-trivial: ≥ 2 operators and at least one of climb/group/repeat; distinct by script (exhaustive layer: by construction).")
-ASSUME = ["`>` directly after a group, after a text-only item and after a self-closed element is never generated (undocumented behaviour)",
+ASSUME = ["`>` directly after a group and after a text-only item is never generated (undocumented behaviour); after a self-closed element it is (the child nests, the mark has no effect)",
           "names that are keys of the resolved snippet table are not generated (`select` is neutralised with a user snippet) so aliases cannot change the tree",
           "implicit names checked are those listed in the statement (li tr td option span div)"]
 
